@@ -188,6 +188,7 @@ fn open_scan_page(buffer: PageBuf, base: usize, offset: usize, recovered: &mut V
 
 
 // ---- TombstoneLog::append, one tombstone: written at slot_addr(tail), page flushed before another is loaded
+#[derive(Debug)]
 pub struct Error { pub e: u8 }
 pub type Result<T> = core::result::Result<T, Error>;
 pub uninterp spec fn enc_tombstone(t: Tombstone) -> Seq<u8>;
